@@ -70,13 +70,25 @@ func (s *DiscoveryStrategy) GetRoutableEndpoints(
 
 	// no healthy endpoints have the model - trigger discovery refresh if configured
 	if !s.options.DiscoveryRefreshOnMiss {
+		// nothing to refresh: the configured fallback decides, as it does after a refresh
+		if s.options.FallbackBehavior == constants.FallbackBehaviorAll && len(healthyEndpoints) > 0 {
+			s.logger.Debug("Discovery refresh disabled, falling back to all healthy endpoints",
+				"model", modelName)
+
+			return healthyEndpoints, ports.NewRoutingDecision(
+				s.Name(),
+				ports.RoutingActionFallback,
+				constants.RoutingReasonAllHealthyFallback,
+			), nil
+		}
+
 		s.logger.Debug("Discovery refresh disabled, rejecting request",
 			"model", modelName)
 
 		return nil, ports.NewRoutingDecision(
 				s.Name(),
 				ports.RoutingActionRejected,
-				constants.RoutingReasonModelUnavailableNoRefresh,
+				rejectionReason(modelEndpoints, constants.RoutingReasonModelUnavailableNoRefresh),
 			), domain.NewModelRoutingError(
 				modelName,
 				s.Name(),
@@ -116,7 +128,7 @@ func (s *DiscoveryStrategy) GetRoutableEndpoints(
 			return nil, ports.NewRoutingDecision(
 					s.Name(),
 					ports.RoutingActionRejected,
-					constants.RoutingReasonDiscoveryFailedNoFallback,
+					rejectionReason(modelEndpoints, constants.RoutingReasonDiscoveryFailedNoFallback),
 				), domain.NewModelRoutingError(
 					modelName,
 					s.Name(),
@@ -131,7 +143,7 @@ func (s *DiscoveryStrategy) GetRoutableEndpoints(
 			return nil, ports.NewRoutingDecision(
 					s.Name(),
 					ports.RoutingActionRejected,
-					constants.RoutingReasonDiscoveryFailedCompatibleOnly,
+					rejectionReason(modelEndpoints, constants.RoutingReasonDiscoveryFailedCompatibleOnly),
 				), domain.NewModelRoutingError(
 					modelName,
 					s.Name(),
@@ -181,7 +193,7 @@ func (s *DiscoveryStrategy) GetRoutableEndpoints(
 		return nil, ports.NewRoutingDecision(
 				s.Name(),
 				ports.RoutingActionRejected,
-				constants.RoutingReasonNoHealthyAfterDiscovery,
+				rejectionReason(modelEndpoints, constants.RoutingReasonNoHealthyAfterDiscovery),
 			), domain.NewModelRoutingError(
 				modelName,
 				s.Name(),
@@ -200,7 +212,7 @@ func (s *DiscoveryStrategy) GetRoutableEndpoints(
 		return nil, ports.NewRoutingDecision(
 				s.Name(),
 				ports.RoutingActionRejected,
-				constants.RoutingReasonModelUnavailableAfterDiscovery,
+				rejectionReason(modelEndpoints, constants.RoutingReasonModelUnavailableAfterDiscovery),
 			), domain.NewModelRoutingError(
 				modelName,
 				s.Name(),
@@ -217,4 +229,13 @@ func (s *DiscoveryStrategy) GetRoutableEndpoints(
 			constants.RoutingReasonAllHealthyAfterDiscovery,
 		), nil
 	}
+}
+
+// rejectionReason keeps "not found" (404) apart from "unavailable" (503): a model that no
+// endpoint lists at all does not exist for this deployment, whatever made the strategy give up.
+func rejectionReason(modelEndpoints []string, unavailableReason string) string {
+	if len(modelEndpoints) == 0 {
+		return constants.RoutingReasonModelNotFound
+	}
+	return unavailableReason
 }
